@@ -1121,6 +1121,8 @@ func main() {
 	lap("skeleton")
 	utagsCases(o)
 	lap("utags")
+	trimCases(o)
+	lap("trim")
 	var hs []hostile
 	hs = append(hs, frames(o)...)
 	hs = append(hs, fields(o)...)
